@@ -114,7 +114,7 @@ var undecided = map[string][]string{
 	"C16": {"exit condition and termination of the main loop beyond the bound (bounded stand-in only)", "epsilon 0 area preservation beyond the bound"},
 	"C01": {"the region statement itself beyond the sampled stand-in: composition of the lemmas through the sweep (AEL order, intersection schedule, joins, horizontals, cleanCollinear / fixSelfIntersects / doSplitOp)"},
 	"C19": {"the area inequalities (need the region statement of C01)"},
-	"C09": {"coverage of the subject lines, cutting at intersections (open/closed branch of intersectEdges), open ends at maxima and horizontals, emission"},
+	"C09": {"coverage of the subject lines beyond the sampled stand-in, cutting at intersections, open ends at maxima and horizontals, emission", "open paths with 180-degree spikes along a horizontal (known finding F37)"},
 	"C07": {"BooleanOpPathsD / PolyTreeD / InflatePathsD composition with their 64-bit counterparts (heap-level engines)", "ScaleRectD rounding (known finding F8)", "NewClipperD(0) (known finding F17)"},
 	"C08": {"the NonZero union of the quads (C01) and commutativity of the resulting region"},
 	"C13": {"region-level translation/scaling invariance of whole operations", "advertised range 2^61 for CrossProduct, dotProduct64, getSegmentIntersectPt (known finding F13)"},
